@@ -8,6 +8,7 @@ import (
 	"runtime/debug"
 	"sort"
 	"strings"
+	"sync"
 	"time"
 
 	"golang.org/x/tools/go/ssa"
@@ -41,17 +42,20 @@ type Obligation struct {
 	Inputs  []InputVar
 
 	// results
-	Status  string // discharged | failed | undecided | trivially-true | covered | vacuous
-	Solver  string
-	Seconds float64
-	Size    int
-	Output  string
-	Model   map[string]string
-	Others  map[string]string
-	ctx     *Engine
-	textStd string
-	textCVC string
-	nvals   int
+	Status   string // discharged | failed | undecided | trivially-true | covered | vacuous
+	Solver   string
+	Seconds  float64
+	Size     int
+	Output   string
+	Model    map[string]string
+	Others   map[string]string
+	ctx      *Engine
+	textStd  string
+	textCVC  string
+	nvals    int
+	subs     []subQuery
+	Cases    int
+	FailText string
 }
 
 type InputVar struct {
@@ -79,11 +83,23 @@ func (e *Engine) oblige(st *State, label string, kind OblKind, goal *smt.Term, p
 		name = fmt.Sprintf("%s@%d", name, n+1)
 	}
 	o := &Obligation{Name: name, Kind: kind, Harness: e.harness.Name, Pos: e.posStr(pos), Msg: msg,
-		PC: append([]*smt.Term{}, st.pc...), Goal: goal, ctx: e}
+		PC: e.oblPC(st), Goal: goal, ctx: e}
 	e.obls = append(e.obls, o)
 	// after asserting, assume (first failure is what is reported)
 	if kind != KindCover {
 		e.assume(st, goal)
+		st.derived = st.derived[:len(st.derived):len(st.derived)]
+		var add func(t *smt.Term)
+		add = func(t *smt.Term) {
+			if t.Op == smt.OAnd {
+				for _, a := range t.Args {
+					add(a)
+				}
+				return
+			}
+			st.derived = append(st.derived, t)
+		}
+		add(goal)
 	}
 }
 
@@ -184,7 +200,7 @@ func (w *World) Generate(h *Harness) (res *HarnessResult) {
 		if !e.dead(r.st) {
 			reach++
 			e.obls = append(e.obls, &Obligation{Name: h.Name + "#cover:end", Kind: KindCover, Harness: h.Name, Pos: e.posStr(fn.Pos()),
-				Msg: "end of harness reachable (assumptions are not contradictory)", PC: append([]*smt.Term{}, r.st.pc...), Goal: e.C.True(), ctx: e})
+				Msg: "end of harness reachable (assumptions are not contradictory)", PC: e.coverPC(r.st), Goal: e.C.True(), ctx: e})
 			break
 		}
 	}
@@ -216,34 +232,330 @@ func (o *Obligation) Query(withValues bool) *smt.Query {
 	return q
 }
 
-// Prepare builds and prints the query (must be called sequentially per engine).
+type subQuery struct {
+	textStd, textCVC string
+	redStd           string // cone-of-influence reduced query (only an unsat answer counts)
+}
+
+// cubes expands the disjunctive literals of the path condition (they come from joins of control-flow paths) into
+// at most `limit` conjunctions of literals. Each cube is a list of literals; together the cubes cover the pc.
+func (e *Engine) cubes(pc []*smt.Term, limit int) [][]*smt.Term {
+	c := e.C
+	cur := [][]*smt.Term{{}}
+	var expand func(t *smt.Term) [][]*smt.Term // DNF of t as list of cubes, nil if too large
+	expand = func(t *smt.Term) [][]*smt.Term {
+		switch t.Op {
+		case smt.OOr:
+			var out [][]*smt.Term
+			for _, a := range t.Args {
+				sub := expand(a)
+				if sub == nil {
+					return nil
+				}
+				out = append(out, sub...)
+				if len(out) > limit {
+					return nil
+				}
+			}
+			return out
+		case smt.OAnd:
+			out := [][]*smt.Term{{}}
+			for _, a := range t.Args {
+				sub := expand(a)
+				if sub == nil {
+					return nil
+				}
+				var next [][]*smt.Term
+				for _, x := range out {
+					for _, y := range sub {
+						next = append(next, append(append([]*smt.Term{}, x...), y...))
+					}
+				}
+				if len(next) > limit {
+					return nil
+				}
+				out = next
+			}
+			return out
+		}
+		return [][]*smt.Term{{t}}
+	}
+	for _, p := range pc {
+		if p.Op != smt.OOr || c.HasQuantifier(p) {
+			continue
+		}
+		sub := expand(p)
+		if sub == nil || len(sub) < 2 || len(cur)*len(sub) > limit {
+			continue
+		}
+		var next [][]*smt.Term
+		for _, x := range cur {
+			for _, y := range sub {
+				// simplify y under x; drop contradictory combinations
+				ok := true
+				var lits []*smt.Term
+				for _, l := range y {
+					s := c.AssumeTrue(l, x)
+					if s.IsFalse() {
+						ok = false
+						break
+					}
+					if !s.IsTrue() {
+						lits = append(lits, s)
+					}
+				}
+				if ok {
+					next = append(next, append(append([]*smt.Term{}, x...), lits...))
+				}
+			}
+		}
+		cur = next
+	}
+	return cur
+}
+
+// symbolsOf collects the variable and function names occurring in t.
+func symbolsOf(t *smt.Term, memo map[int]map[string]bool) map[string]bool {
+	if m, ok := memo[t.ID]; ok {
+		return m
+	}
+	m := map[string]bool{}
+	switch t.Op {
+	case smt.OVar:
+		m[t.Name] = true
+	case smt.OApp:
+		// heap arrays connect everything; an application is identified by the function together with its arguments' symbols
+		m[t.Name] = true
+	}
+	for _, a := range t.Args {
+		for k := range symbolsOf(a, memo) {
+			m[k] = true
+		}
+	}
+	memo[t.ID] = m
+	return m
+}
+
+// relevant keeps the assertions connected to the goal through shared symbols (cone of influence). Leaving out
+// assumptions is sound for proving; when the reduced query is not unsat the full one is used.
+func relevant(asserts []*smt.Term, goal *smt.Term) []*smt.Term {
+	memo := map[int]map[string]bool{}
+	syms := map[string]bool{}
+	for k := range symbolsOf(goal, memo) {
+		syms[k] = true
+	}
+	used := make([]bool, len(asserts))
+	for changed := true; changed; {
+		changed = false
+		for i, a := range asserts {
+			if used[i] {
+				continue
+			}
+			as := symbolsOf(a, memo)
+			hit := false
+			for k := range as {
+				if syms[k] {
+					hit = true
+					break
+				}
+			}
+			if hit {
+				used[i] = true
+				changed = true
+				for k := range as {
+					syms[k] = true
+				}
+			}
+		}
+	}
+	var out []*smt.Term
+	for i, a := range asserts {
+		if used[i] {
+			out = append(out, a)
+		}
+	}
+	return out
+}
+
+// Prepare builds and prints the query (must be called sequentially per engine). Obligations whose path condition
+// carries join disjunctions are split into one sub-query per feasible combination of paths, each simplified under
+// the literals of its combination; the obligation is discharged when every sub-query is unsatisfiable.
 func (o *Obligation) Prepare() {
 	e := o.ctx
+	c := e.C
 	if o.Kind != KindCover && o.Goal.IsTrue() {
-		o.Status = "trivially-true"
+		o.Status = "discharged"
+		o.Solver = "simplifier"
 		return
 	}
 	q := o.Query(true)
-	o.Size = e.C.Size(q)
+	o.Size = c.Size(q)
 	for _, a := range q.Asserts {
 		if a.IsFalse() {
 			if o.Kind == KindCover {
 				o.Status = "vacuous"
 			} else {
 				o.Status = "discharged"
-				o.Solver = "syntactic"
+				o.Solver = "simplifier"
 			}
 			return
 		}
 	}
-	o.textStd = e.C.Print(q, false)
-	o.textCVC = e.C.Print(q, true)
 	o.nvals = len(q.Values)
+	if o.Kind != KindCover && o.Size > 300 {
+		cubes := e.cubes(o.PC, 64)
+		if len(cubes) > 1 {
+			for _, cube := range cubes {
+				sq := &smt.Query{Values: q.Values}
+				dead := false
+				for _, a := range q.Asserts {
+					s := c.AssumeTrue(a, cube)
+					if s.IsFalse() {
+						dead = true
+						break
+					}
+					if !s.IsTrue() {
+						sq.Asserts = append(sq.Asserts, s)
+					}
+				}
+				if dead {
+					continue
+				}
+				sq.Asserts = append(sq.Asserts, cube...)
+				sub := subQuery{textStd: c.Print(sq, false), textCVC: c.Print(sq, true)}
+				if ng := c.AssumeTrue(c.Not(o.Goal), cube); !ng.IsFalse() {
+					var rest []*smt.Term
+					for _, a := range sq.Asserts {
+						if a != ng {
+							rest = append(rest, a)
+						}
+					}
+					red := relevant(rest, ng)
+					if len(red) < len(rest) {
+						rq := &smt.Query{Asserts: append(red, ng)}
+						sub.redStd = c.Print(rq, false)
+					}
+				}
+				o.subs = append(o.subs, sub)
+			}
+			o.Cases = len(cubes)
+			if len(o.subs) == 0 {
+				o.Status = "discharged"
+				o.Solver = "simplifier"
+			}
+			o.textStd = c.Print(q, false)
+			return
+		}
+	}
+	if o.Kind == KindCover && o.Size > 300 {
+		// a satisfiable combination of paths shows the whole path condition satisfiable
+		cubes := e.cubes(o.PC, 64)
+		if len(cubes) > 1 {
+			for _, cube := range cubes {
+				sq := &smt.Query{}
+				dead := false
+				for _, a := range q.Asserts {
+					s := c.AssumeTrue(a, cube)
+					if s.IsFalse() {
+						dead = true
+						break
+					}
+					if !s.IsTrue() {
+						sq.Asserts = append(sq.Asserts, s)
+					}
+				}
+				if dead {
+					continue
+				}
+				sq.Asserts = append(sq.Asserts, cube...)
+				o.subs = append(o.subs, subQuery{textStd: c.Print(sq, false), textCVC: c.Print(sq, true)})
+				if len(o.subs) >= 6 {
+					break
+				}
+			}
+			o.Cases = len(cubes)
+		}
+	}
+	o.textStd = c.Print(q, false)
+	o.textCVC = c.Print(q, true)
 }
 
 // Discharge runs the solvers on one prepared obligation (safe to call concurrently).
 func (o *Obligation) Discharge(solvers []smt.SolverSpec, dir string, timeoutSec, need int) {
 	if o.Status != "" {
+		return
+	}
+	if len(o.subs) > 0 && o.Kind == KindCover {
+		for i, s := range o.subs {
+			r := smt.SolveText(s.textStd, s.textCVC, 0, solvers, dir, fmt.Sprintf("%s.cover%d", o.Name, i), timeoutSec, 1)
+			o.Seconds += r.Seconds
+			if r.Status == smt.Sat {
+				o.Status, o.Solver = "covered", r.Solver+" (one path case)"
+				return
+			}
+		}
+		// fall through to the full query
+		o.subs = nil
+	}
+	if len(o.subs) > 0 {
+		o.Status = "discharged"
+		solversUsed := map[string]bool{}
+		results := make([]smt.Result, len(o.subs))
+		var wg sync.WaitGroup
+		sem := make(chan struct{}, 4)
+		for i, s := range o.subs {
+			wg.Add(1)
+			go func(i int, s subQuery) {
+				defer wg.Done()
+				sem <- struct{}{}
+				defer func() { <-sem }()
+				if s.redStd != "" && need == 1 {
+					r := smt.SolveText(s.redStd, "", 0, solvers[:1], dir, fmt.Sprintf("%s.case%d.coi", o.Name, i), 5, 1)
+					if r.Status == smt.Unsat {
+						r.Solver += "/coi"
+						results[i] = r
+						return
+					}
+				}
+				results[i] = smt.SolveText(s.textStd, s.textCVC, o.nvals, solvers, dir, fmt.Sprintf("%s.case%d", o.Name, i), timeoutSec, need)
+			}(i, s)
+		}
+		wg.Wait()
+		for i, s := range o.subs {
+			r := results[i]
+			if r.Seconds > o.Seconds {
+				o.Seconds = r.Seconds
+			}
+			solversUsed[r.Solver] = true
+			switch r.Status {
+			case smt.Unsat:
+			case smt.Sat:
+				o.Status = "failed"
+				o.Output = r.Output
+				o.FailText = s.textStd
+				o.Model = map[string]string{}
+				for j, in := range o.Inputs {
+					if j < len(r.Values) {
+						o.Model[in.Name] = r.Values[j]
+					}
+				}
+			default:
+				if o.Status == "discharged" {
+					o.Status = "undecided"
+					o.Output = r.Output
+					o.Others = r.Others
+				}
+			}
+			if o.Status == "failed" {
+				break
+			}
+		}
+		var names []string
+		for n := range solversUsed {
+			names = append(names, n)
+		}
+		sort.Strings(names)
+		o.Solver = fmt.Sprintf("%s (%d of %d path cases)", strings.Join(names, "+"), len(o.subs), o.Cases)
 		return
 	}
 	r := smt.SolveText(o.textStd, o.textCVC, o.nvals, solvers, dir, o.Name, timeoutSec, need)
@@ -271,7 +583,12 @@ func (o *Obligation) Discharge(solvers []smt.SolverSpec, dir string, timeoutSec,
 }
 
 // SMT returns the query text (for replay files).
-func (o *Obligation) SMT() string { return o.textStd }
+func (o *Obligation) SMT() string {
+	if o.FailText != "" {
+		return o.FailText
+	}
+	return o.textStd
+}
 
 func (o *Obligation) Engine() *Engine { return o.ctx }
 
@@ -285,4 +602,45 @@ func (o *Obligation) Discharge2(solvers []smt.SolverSpec, dir string, timeoutSec
 	if o.Status == "discharged" {
 		o.Solver += " (single solver)"
 	}
+}
+
+// coverPC is the path condition without the literals that were proved before being assumed.
+func (e *Engine) coverPC(st *State) []*smt.Term {
+	drop := map[int]bool{}
+	for _, d := range st.derived {
+		drop[d.ID] = true
+		if d.Op == smt.OAnd {
+			for _, a := range d.Args {
+				drop[a.ID] = true
+			}
+		}
+	}
+	var out []*smt.Term
+	for _, p := range st.pc {
+		if !drop[p.ID] {
+			out = append(out, p)
+		}
+	}
+	return out
+}
+
+// oblPC is the path condition used for an obligation: literals that were proved before being assumed are implied
+// by the rest, so the quantified and the large ones among them are left out (they only slow the solvers down).
+func (e *Engine) oblPC(st *State) []*smt.Term {
+	drop := map[int]bool{}
+	for _, d := range st.derived {
+		if e.C.HasQuantifier(d) {
+			drop[d.ID] = true
+		}
+	}
+	if len(drop) == 0 {
+		return append([]*smt.Term{}, st.pc...)
+	}
+	var out []*smt.Term
+	for _, p := range st.pc {
+		if !drop[p.ID] {
+			out = append(out, p)
+		}
+	}
+	return out
 }
